@@ -193,6 +193,64 @@ def unsuccessful_cases(run):
                         theorem="C04 (unsuccessful)")
 
 
+def bounds_history_cases(run):
+    """a successful fit followed, on the same curve, by a request whose
+    initial parameters differ from the stored ones only in a bound that
+    excludes the value fitted before: afterwards the reported outputs must be
+    those of a fit inside the new bounds (all relations of C04), never the
+    earlier result"""
+    n = 8 if run.tier == "quick" else 80
+    cfgs = [c for c in configs(run.rng, run.tier)
+            if c["method"] == "leastsq" and not c["expr"]
+            and c["fix"] != "E"][:n]
+    for cfg in cfgs:
+        cfg = dict(cfg, history="tighter-bound")
+        key = "hist:" + common.sha(cfg)[:16]
+        payload = {"kind": "rerun"}
+        try:
+            idnt, calls, p0, fixed = run_cfg(cfg)
+            fp = idnt.fit_properties
+            if not fp.get("success"):
+                continue
+            ekey = "E" if "E" in fp["params_fitted"] else "E_S"
+            e1 = float(fp["params_fitted"][ekey].value)
+            p2 = copy.deepcopy(fp["params_initial"])
+            side = cfg["seed"] % 2
+            # the start value (1.7 E_true) stays inside, the earlier result
+            # (about E_true) is excluded / or: only the upper bound moves
+            # and the earlier result stays admissible
+            if side == 0:
+                p2[ekey].set(min=min(1.3 * e1, 0.9 * float(p2[ekey].value)))
+            else:
+                p2[ekey].set(max=10 * float(p2[ekey].value))
+            with fits.MinimizeCapture() as cap:
+                idnt.fit_model(params_initial=p2)
+        except BaseException as e:
+            run.failing(SITE, key, f"{cfg}: raised {type(e).__name__}: {e}",
+                        payload=payload)
+            continue
+        run.case(cfg, kind="bounds-history")
+        fp = idnt.fit_properties
+        pi = fp["params_initial"]
+        if fp.get("success"):
+            for name, par in fp["params_fitted"].items():
+                lo, hi = float(pi[name].min), float(pi[name].max)
+                if par.vary and not (lo <= float(par.value) <= hi):
+                    run.failing(
+                        SITE, key, f"{cfg}: after a request with bounds "
+                        f"[{lo}, {hi}] for {name} the curve reports success "
+                        f"with {name} = {par.value!r} (the result of the "
+                        "earlier fit)", payload=payload,
+                        theorem="C04 (bounds)")
+            if not cap.calls and side == 0:
+                run.failing(SITE, key + "|no-fit", f"{cfg}: bounds of the "
+                            "initial parameters changed, results are shown "
+                            "without a new optimisation", payload=payload,
+                            theorem="C04 (bounds)")
+            elif cap.calls:
+                oracle(run, cfg, idnt, cap.calls, p2, fixed)
+
+
 def check(run):
     run.sources = common.source_digests(
         ["src/nanite/fit.py", "src/nanite/model/residuals.py",
@@ -242,6 +300,7 @@ def check(run):
                 descr.append(str(cfg))
     fits.eval_bool_cases(run, "c04_fit", exprs, descr)
     unsuccessful_cases(run)
+    bounds_history_cases(run)
     for kf in run.known:
         if kf.get("status") == "fixed":
             run.fixed_must_pass(kf["id"], not any(
